@@ -57,6 +57,46 @@ theorem run_cons (V : View α) (s : V.σ) (x : α) (xs : List α) :
     V.run s (x :: xs) = (V.upd s x >>= fun s' => V.run s' xs) := rfl
 end wrapLemmas
 
+/-- after any run of a chain, the inner component is the stand-alone inner view's state and the core component is
+reachable by running the core alone on some list of values (the ones delivered) -/
+theorem wrap_run_components [FloatLike α] (A : View α) (B : Core α) (a : A.σ) (b : B.σ) (xs : List α)
+    (hx : AllFinite xs) (s : A.σ × B.σ) (h : (wrap A B).run (a, b) xs = .ok s) :
+    A.run a xs = .ok s.1 ∧ ∃ ys, B.run b ys = .ok s.2 := by
+  induction xs generalizing a b with
+  | nil =>
+    simp only [View.run, pure, Except.pure] at h ⊢; cases h
+    exact ⟨rfl, [], rfl⟩
+  | cons x xs ih =>
+    have hxf := hx.head
+    rw [run_cons] at h ⊢
+    cases hu : A.upd a x with
+    | error e =>
+      obtain ⟨e', he⟩ := wrap_upd_err_upd A B (b := b) hu
+      rw [he] at h; simp [bind, Except.bind] at h
+    | ok a' =>
+      cases hl : A.last a' with
+      | error e =>
+        obtain ⟨e', he⟩ := wrap_upd_err_last A B (b := b) hu hl
+        rw [he] at h; simp [bind, Except.bind] at h
+      | ok o =>
+        cases o with
+        | none =>
+          rw [wrap_upd_none A B hxf hu hl] at h
+          simp only [bind, Except.bind] at h ⊢
+          exact ih a' b hx.tail h
+        | some v =>
+          rw [wrap_upd_some A B hxf hu hl] at h
+          simp only [bind, Except.bind] at h ⊢
+          cases hv : assertFinite v with
+          | error e => simp [hv] at h
+          | ok u2 =>
+            cases hs : B.step b v with
+            | error e => simp [hv, hs] at h
+            | ok b' =>
+              simp only [hv, hs, pure, Except.pure] at h
+              obtain ⟨h1, ys, h2⟩ := ih a' b' hx.tail h
+              exact ⟨h1, v :: ys, by simp [Core.run, hs, bind, Except.bind, h2]⟩
+
 namespace Core
 /-- feed a core the outputs delivered by an inner view: at a step where the inner view had an output the core
 is stepped with it (after the finiteness assertion of the wrapper's head), otherwise it is left alone; the
